@@ -178,6 +178,7 @@ type FuncVC struct {
 	params     map[string]Val
 	streamAppend func(r, d, x Term, xv ssa.Value, pos token.Pos)
 	inGlobalInv bool
+	quants []*quantInst
 	mergeWidth int
 	pfxPairs []pfxPair
 	sfxFacts []sfxFact
